@@ -117,6 +117,12 @@ def run(tier):
             cl = sorted(rejects[r['id']])
             v.reject(f"C14:I={r['I']},N={r['N']},C={r['C']},T={r['T']}:" + ','.join(cl),
                      {k: x for k, x in r.items() if not k.startswith('_')} | {'failed': cl})
+    def _corrupt(r):
+        if not r['tasks'] or r['tasks'][0]['nruns'] < 2:
+            return None
+        r['tasks'][0]['nruns'] -= 1
+        return r
+    common.binding_selftest('c14', 'C14_Data', recs, _corrupt)
     # collapse: thousands of configurations share one root cause; report keys
     rc = v.finish()
     common.write_evidence(
